@@ -39,7 +39,8 @@ def call_depth_at_end(prog, trace):
     return d
 
 
-def build(prog, version, rng, cap=1200, pair_mode="reps", name="contract", want_execs=True, features=None):
+def build(prog, version, rng, cap=1200, pair_mode="reps", name="contract", want_execs=True, features=None,
+          forced_inputs=None):
     """Analyse with tealer and execute with the reference interpreter.  Raises whatever tealer raises."""
     c = Case()
     c.prog, c.version = prog, version
@@ -55,7 +56,11 @@ def build(prog, version, rng, cap=1200, pair_mode="reps", name="contract", want_
     c.why = {}
     if want_execs:
         labels = T.labels_of(prog)
-        for group, own, exh in inputs.enumerate_groups(prog, rng, cap, pair_mode, c.reads):
+        if forced_inputs is not None:
+            source = [(g, o, False) for g, o in forced_inputs]
+        else:
+            source = inputs.enumerate_groups(prog, rng, cap, pair_mode, c.reads)
+        for group, own, exh in source:
             c.total_execs += 1
             c.exhaustive = c.exhaustive and exh
             r = avm.run(prog, group, own, labels=labels)
